@@ -66,6 +66,14 @@ TREE_CORPUS = [
         [('rp_create', 39, 1, 1, None), ('rp_create', 39, 2, 2, 1), ('rp_create', 39, 3, 3, 2), ('rp_create', 39, 4, 4, None),
          ('rp_create', 39, 5, 5, 4), ('rp_update', 39, 2, 4, 4), ('rp_update', 39, 2, 5, 5), ('rp_update', 39, 2, 1, None),
          ('rp_update', 39, 2, 3, 2), ('rp_update', 39, 2, 9, 5), ('rp_update', 39, 2, 4, None), ('rp_update', 39, 2, 2, None)],
+        # below 1.37 an already parented provider may not be moved at all: to another branch of its OWN tree, to its root, to
+        # its grandparent, to another tree, to the top level (seed C09-i: only moves that change the root were refused); naming
+        # the parent it has, or no parent key, stays legal; then the same moves from 1.37
+        [('rp_create', 14, 1, 1, None), ('rp_create', 14, 2, 2, 1), ('rp_create', 14, 3, 3, 2), ('rp_create', 14, 4, 4, 1),
+         ('rp_create', 14, 5, 5, None), ('rp_create', 14, 6, 6, 3), ('rp_update', 14, 3, 3, 4), ('rp_update', 36, 3, 3, 1),
+         ('rp_update', 20, 6, 6, 2), ('rp_update', 36, 6, 6, 4), ('rp_update', 29, 3, 3, 5), ('rp_update', 36, 3, 3, None),
+         ('rp_update', 36, 3, 3, 2), ('rp_update', 18, 3, 9, 'absent'), ('rp_update', 36, 3, 3, 3), ('rp_update', 36, 3, 3, 6),
+         ('rp_update', 14, 4, 4, 3), ('rp_update', 37, 3, 3, 4), ('rp_update', 39, 6, 6, 1), ('rp_update', 36, 6, 6, 3)],
 ]
 CORPUS = {'C04': TREE_CORPUS, 'C08': TREE_CORPUS, 'C09': TREE_CORPUS, 'C10': TREE_CORPUS, 'C12': []}
 
